@@ -106,4 +106,113 @@ func (dht *IpfsDHT) GetClosestPeers(ctx context.Context, key string) ([]peer.ID,
   ensures [result-is-peers] imp($lr != nil, result0 == $lr.peers && lookupResultOK($lr, $lr.$qp, dht.bucketSize) && !$lr.$qp.$has[dht.self])
   ensures imp($lr == nil, result1 != nil && len(result0) == 0)
   ghost at call(runLookupWithFollowup): $lr = $ret0
+
+import recpb "github.com/libp2p/go-libp2p-record/pb"
+# ---- request handlers (C09) -----------------------------------------------
+immutable "github.com/libp2p/go-libp2p-kad-dht.providerPeersTagSize"
+
+# decoded protobuf messages never contain nil elements in repeated fields
+# (contract of the protobuf decoder, assumed)
+pred msgWF(m *pb.Message) = all(i, 0, len(m.ProviderPeers), m.ProviderPeers[i] != nil) && all(i, 0, len(m.CloserPeers), m.CloserPeers[i] != nil)
+
+func (dht *IpfsDHT) closestPeersToQuery(pmes *pb.Message, from peer.ID, count int) []peer.ID
+  props C09
+  requires count >= 1
+  ghostvar $np []peer.ID = nil
+  ghostvar $src map[int]int = any
+  modifies nothing
+  ensures [atmost] len(result) <= count
+  ensures [excluded] all(i, 0, len(result), result[i] != dht.self && result[i] != from)
+  ensures [internal-subsequence] all(j, 0, len(result), 0 <= $src[j] && $src[j] < len($np) && result[j] == $np[$src[j]]) && all(a, 0, len(result), all(b, a+1, len(result), $src[a] < $src[b]))
+  ensures [internal-nearest-of] len($np) <= count + 1
+  loop over closestPeers invariant len(filtered) < count && len(filtered) <= $key && closestPeers == $np
+  loop over closestPeers invariant all(i, 0, len(filtered), filtered[i] != dht.self && filtered[i] != from)
+  loop over closestPeers invariant all(j, 0, len(filtered), 0 <= $src[j] && $src[j] < $key && filtered[j] == $np[$src[j]]) && all(a, 0, len(filtered), all(b, a+1, len(filtered), $src[a] < $src[b]))
+  ghost at call(NearestPeers): $np = $ret0
+  ghost at append(filtered): $src[len(filtered)-1] = $key
+
+func stripPeerRecords(pmes *pb.Message)
+  props C09
+  modifies pmes.CloserPeers, pmes.ProviderPeers
+  ensures len(pmes.CloserPeers) == 0 && len(pmes.ProviderPeers) == 0
+
+func (dht *IpfsDHT) handlerForMsgType(t pb.Message_MessageType) dhtHandler
+  props C09 C13
+  modifies nothing
+  ensures iff(result != nil, t == pb.Message_FIND_NODE || t == pb.Message_PING || (dht.valueStore != nil && (t == pb.Message_GET_VALUE || t == pb.Message_PUT_VALUE)) || (dht.providerStore != nil && (t == pb.Message_ADD_PROVIDER || t == pb.Message_GET_PROVIDERS)))
+
+func (dht *IpfsDHT) handlePing(_ context.Context, p peer.ID, pmes *pb.Message) (*pb.Message, error)
+  props C09
+  modifies pmes.CloserPeers, pmes.ProviderPeers
+  ensures result1 == nil && result0 == pmes && len(pmes.CloserPeers) == 0 && len(pmes.ProviderPeers) == 0
+
+func (dht *IpfsDHT) handlePutValue(ctx context.Context, p peer.ID, pmes *pb.Message) (_ *pb.Message, err error)
+  props C09 C05
+  requires dht.valueStore != nil
+  modifies *
+  ensures imp(result1 == nil, result0 == pmes && len(pmes.CloserPeers) == 0 && len(pmes.ProviderPeers) == 0)
+  ensures imp(result1 != nil, result0 == nil)
+  ghost at before call(Put): assert($arg2 != nil && str($arg2.Key) == $arg1 && str(pmes.Key) == $arg1 && len($arg1) > 0)
+
+func (dht *IpfsDHT) handleFindPeer(ctx context.Context, from peer.ID, pmes *pb.Message) (_ *pb.Message, _err error)
+  props C09
+  requires cfgOK(dht) && pb.peerAddrsTagSize >= 0
+  modifies nothing
+  ensures imp(result1 != nil, result0 == nil)
+  ensures imp(result1 == nil, result0 != nil && len(result0.CloserPeers) <= dht.bucketSize + 1 && len(result0.ProviderPeers) == 0)
+  ensures imp(result1 == nil, all(i, 0, len(result0.CloserPeers), result0.CloserPeers[i] != nil && pb.recBounded(result0.CloserPeers[i])))
+  loop over closestinfos invariant len(withAddresses) <= $key
+
+# the user-supplied address filter is assumed to have no effect on DHT state
+role f(addrs []ma.Multiaddr) []ma.Multiaddr in (dht *IpfsDHT) filterAddrs(addrs []ma.Multiaddr) []ma.Multiaddr
+  pure
+
+func (dht *IpfsDHT) filterAddrs(addrs []ma.Multiaddr) []ma.Multiaddr
+  props C09 C15
+  modifies nothing
+  ensures imp(dht.addrFilter == nil, result == addrs)
+
+func appendFittingProviderPeers(resp *pb.Message, recs iter.Seq[*pb.Message_Peer])
+  props C09
+  requires providerPeersTagSize >= 0
+  ghostvar $sum int = 0
+  let base = proto.Size(resp)
+  modifies resp.ProviderPeers
+  ensures [kept] len(resp.ProviderPeers) >= old(len(resp.ProviderPeers))
+  ensures [internal-fits] imp(len(resp.ProviderPeers) > old(len(resp.ProviderPeers)), base + $sum <= network.MessageSizeMax)
+  loop 0 invariant size == base + $sum && size <= network.MessageSizeMax || (len(resp.ProviderPeers) == old(len(resp.ProviderPeers)) && $sum == 0 && size == base)
+  loop 0 invariant len(resp.ProviderPeers) >= old(len(resp.ProviderPeers)) && $sum >= 0
+  ghost at append(resp.ProviderPeers): $sum = $sum + providerPeersTagSize + protowire.SizeBytes(proto.Size(rec))
+
+func (dht *IpfsDHT) handleGetValue(ctx context.Context, p peer.ID, pmes *pb.Message) (_ *pb.Message, err error)
+  props C09 C05
+  requires dht.valueStore != nil && cfgOK(dht) && pb.peerAddrsTagSize >= 0
+  ghostvar $rec *recpb.Record = nil
+  ghostvar $k string = ""
+  modifies *
+  ensures imp(result1 != nil, result0 == nil)
+  ensures [served-is-stored] imp(result1 == nil, result0 != nil && result0.Record == $rec && $k == str(old(pmes.Key)) && len($k) > 0)
+  ensures imp(result1 == nil, len(result0.CloserPeers) <= dht.bucketSize && len(result0.ProviderPeers) == 0)
+  ensures imp(result1 == nil, all(i, 0, len(result0.CloserPeers), result0.CloserPeers[i] != nil && pb.recBounded(result0.CloserPeers[i])))
+  ghost at before call(Get): $k = $arg1
+  ghost at call(Get): $rec = $ret0
+
+func (dht *IpfsDHT) handleGetProviders(ctx context.Context, p peer.ID, pmes *pb.Message) (_ *pb.Message, _err error)
+  props C09
+  requires dht.providerStore != nil && cfgOK(dht) && pb.peerAddrsTagSize >= 0 && providerPeersTagSize >= 0
+  modifies *
+  ensures imp(result1 != nil, result0 == nil)
+  ensures imp(result1 == nil, result0 != nil && len(result0.CloserPeers) <= dht.bucketSize)
+  ghost at before call(GetProviders): assert(len($arg1) >= 1 && len($arg1) <= 80); assert(len(resp.CloserPeers) <= dht.bucketSize && all(i, 0, len(resp.CloserPeers), resp.CloserPeers[i] != nil && pb.recBounded(resp.CloserPeers[i])))
+
+func (dht *IpfsDHT) handleAddProvider(ctx context.Context, p peer.ID, pmes *pb.Message) (_ *pb.Message, _err error)
+  props C09 C07 C15
+  requires dht.providerStore != nil && pb.peerAddrsTagSize >= 0 && msgWF(pmes)
+  ghostvar $filtered []ma.Multiaddr = nil
+  ghostvar $in []ma.Multiaddr = nil
+  modifies *
+  ensures result0 == nil
+  ghost at before call(filterAddrs): $in = $arg0
+  ghost at call(filterAddrs): $filtered = $ret0
+  ghost at before call(AddProvider): assert($arg2.ID == p); assert(len($in) >= 1); assert($arg2.Addrs == $filtered); assert(len($arg1) >= 1 && len($arg1) <= 80 && $arg1 == old(pmes.Key))
 @*/
